@@ -74,23 +74,63 @@ pub assume_specification<'a, T: Copy + 'a, A: std::alloc::Allocator, I: IntoIter
 pub broadcast axiom fn axiom_ext_items_slice<'a, T: Copy>(s: &'a [T])
     ensures #[trigger] ext_items::<T, &'a [T]>(s) == s@;
 
-/// `Vec::retain` keeps, in order, exactly the elements for which the predicate returns true
-/// (stated for predicates whose result is determined by their contract)
+/// the subsequence of s at the positions where mask is true
+pub open spec fn mask_filter<T>(s: Seq<T>, mask: Seq<bool>) -> Seq<T>
+    decreases s.len(),
+{
+    if s.len() == 0 || mask.len() != s.len() { Seq::empty() }
+    else {
+        let r = mask_filter(s.drop_last(), mask.drop_last());
+        if mask.last() { r.push(s.last()) } else { r }
+    }
+}
+/// `Vec::retain` calls the predicate once per element, in order, and keeps exactly the elements for
+/// which it returned true (`mask` = the values the calls returned)
 pub assume_specification<T, A: std::alloc::Allocator, F: FnMut(&T) -> bool>[ Vec::<T, A>::retain ](v: &mut Vec<T, A>, f: F)
     requires
         forall|i: int| #![trigger old(v)@[i]] 0 <= i < old(v)@.len() ==> f.requires((&old(v)@[i],)),
-        forall|i: int| #![trigger old(v)@[i]] 0 <= i < old(v)@.len() ==> !(f.ensures((&old(v)@[i],), true) && f.ensures((&old(v)@[i],), false)),
-    ensures final(v)@ == old(v)@.filter(|x: T| f.ensures((&x,), true));
+    ensures
+        exists|mask: Seq<bool>| #![trigger mask_filter(old(v)@, mask)] mask.len() == old(v)@.len()
+            && (forall|i: int| 0 <= i < mask.len() ==> f.ensures((&old(v)@[i],), #[trigger] mask[i]))
+            && final(v)@ == mask_filter(old(v)@, mask);
 
 // ---- A-iter additions (belong into env/seqiter.vs) ---------------------------------------------------
 impl<T> SeqIter<T> {
-    /// std `Iterator::filter`: keeps, in order, exactly the items for which the predicate returns
-    /// true (stated for predicates whose result is determined by their contract)
+    /// std `Iterator::filter`: calls the predicate once per item, in order, and keeps exactly the
+    /// items for which it returned true (`mask` = the values the calls returned)
     #[verifier::external_body]
     pub fn filter<F: FnMut(&T) -> bool>(self, f: F) -> (r: SeqIter<T>)
         requires
             forall|i: int| #![trigger self@[i]] 0 <= i < self@.len() ==> f.requires((&self@[i],)),
-            forall|i: int| #![trigger self@[i]] 0 <= i < self@.len() ==> !(f.ensures((&self@[i],), true) && f.ensures((&self@[i],), false)),
-        ensures r@ == self@.filter(|x: T| f.ensures((&x,), true)),
+        ensures
+            exists|mask: Seq<bool>| #![trigger mask_filter(self@, mask)] mask.len() == self@.len()
+                && (forall|i: int| 0 <= i < mask.len() ==> f.ensures((&self@[i],), #[trigger] mask[i]))
+                && r@ == mask_filter(self@, mask),
     { unimplemented!() }
+}
+/// a mask that drops exactly position p
+pub proof fn lemma_mask_filter_remove<T>(s: Seq<T>, mask: Seq<bool>, p: int)
+    requires mask.len() == s.len(), 0 <= p < s.len(), forall|i: int| 0 <= i < s.len() ==> #[trigger] mask[i] == (i != p),
+    ensures mask_filter(s, mask) == s.remove(p),
+    decreases s.len(),
+{
+    if p == s.len() - 1 {
+        lemma_mask_filter_all(s.drop_last(), mask.drop_last());
+        assert(s.remove(p) =~= s.drop_last());
+    } else {
+        lemma_mask_filter_remove(s.drop_last(), mask.drop_last(), p);
+        assert(s.remove(p) =~= s.drop_last().remove(p).push(s.last()));
+    }
+}
+pub proof fn lemma_mask_filter_all<T>(s: Seq<T>, mask: Seq<bool>)
+    requires mask.len() == s.len(), forall|i: int| 0 <= i < s.len() ==> #[trigger] mask[i],
+    ensures mask_filter(s, mask) == s,
+    decreases s.len(),
+{
+    if s.len() > 0 {
+        lemma_mask_filter_all(s.drop_last(), mask.drop_last());
+        assert(s.drop_last().push(s.last()) =~= s);
+    } else {
+        assert(s =~= Seq::<T>::empty());
+    }
 }
